@@ -171,14 +171,15 @@ class Cache(Machine):
                     # aim the slot length at interesting residues by choosing a blob size relative to eb
                     inputs.append([uri, b[0], s.choice([None, None, 0, 1, 2, eb - 1, eb, eb + 1])])
                 out = f"c{i}"
-                ops.append({"kind": "from_payloads", "i": i, "inputs": inputs, "eb": eb, "out": out})
+                ops.append({"kind": "from_payloads", "i": i, "inputs": inputs, "eb": eb, "out": out,
+                            "dirty": s.choice(self.DIRTY_VARIANTS)})
                 cache_slots.append(out)
             elif r < 0.62:
                 src = s.choice(env_slots)
                 out_env = src if s.chance(0.25) else f"s{i}"
                 out = f"c{i}"
                 ops.append({"kind": "from_envelope", "i": i, "in": src, "out_env": out_env, "out": out, "eb": eb,
-                            "omit": s.choice(REGEXES), "dep": s.choice(REGEXES)})
+                            "omit": s.choice(REGEXES), "dep": s.choice(REGEXES), "dirty": s.choice(self.DIRTY_VARIANTS)})
                 cache_slots.append(out)
                 if out_env not in env_slots:
                     env_slots.append(out_env)
@@ -186,13 +187,14 @@ class Cache(Machine):
                 k = s.randint(1, min(4, len(cache_slots)))
                 ins = [s.choice(cache_slots) for _ in range(k)]
                 out = s.choice(ins) if s.chance(0.15) else f"c{i}"
-                ops.append({"kind": "merge", "i": i, "inputs": ins, "out": out, "eb": eb})
+                ops.append({"kind": "merge", "i": i, "inputs": ins, "out": out, "eb": eb, "dirty": s.choice(self.DIRTY_VARIANTS)})
                 cache_slots.append(out)
             else:
                 src = s.choice(env_slots)
                 out_env = src if s.chance(0.25) else f"x{i}"
                 ops.append({"kind": "extract", "i": i, "in": src, "out_env": out_env, "pick": s.below(8),
-                            "out_file": s.chance(0.7), "replace": s.choice([None, None, s.choice(blobs)[0]])})
+                            "out_file": s.chance(0.7), "replace": s.choice([None, None, s.choice(blobs)[0]]),
+                            "dirty": s.choice(self.DIRTY_VARIANTS)})
                 if out_env not in env_slots:
                     env_slots.append(out_env)
         return {"seed": seed, "swarm": swarm, "ops": ops, "faults": []}
@@ -348,9 +350,10 @@ class Cache(Machine):
             return []
         raw = host.read(out_rel)
         model["caches"][op["out"]] = {"rel": out_rel, "pairs": pairs}
-        if prop == "C10":
-            return self._check_cache(prop, op, raw, eb, pairs, ex)
-        return []
+        vs = self._check_cache(prop, op, raw, eb, pairs, ex) if prop == "C10" else []
+        if not vs and prop == "C10":
+            vs = self.dirty_rerun(host, model, prop, op, [out_rel], run, "well-formed")
+        return vs
 
     def _merge(self, host, model, op, faults, prop):
         ex = model["_extra"]
@@ -396,9 +399,10 @@ class Cache(Machine):
         raw = host.read(out_rel)
         model["caches"][op["out"]] = {"rel": out_rel, "pairs": pairs}
         ex["merges_checked"] += 1
-        if prop == "C10":
-            return self._check_cache(prop, op, raw, eb, pairs, ex)
-        return []
+        vs = self._check_cache(prop, op, raw, eb, pairs, ex) if prop == "C10" else []
+        if not vs and prop == "C10" and not in_place:
+            vs = self.dirty_rerun(host, model, prop, op, [out_rel], run, "well-formed")
+        return vs
 
     def _from_envelope(self, host, model, op, faults, prop):
         ex = model["_extra"]
@@ -502,6 +506,8 @@ class Cache(Machine):
                 vs.append(violation("C11", "each-payload-in-exactly-one-place", op["i"],
                                     f"payload {key} ({len(b)} B) is in {places} places after the operation"))
                 break
+        if not vs and not in_place:
+            vs = self.dirty_rerun(host, model, prop, op, [out_env_rel, out_rel], run, "outputs-are-exactly-the-selection")
         return vs
 
     def _explain_env_diff(self, op, inp, out_env, exp_env):
@@ -588,4 +594,7 @@ class Cache(Machine):
             if got != payload:
                 vs.append(violation("C11", "extracted-bytes-identical", op["i"],
                                     f"output payload file holds {None if got is None else len(got)} bytes, payload has {len(payload)}"))
+        if not vs and not in_place:
+            vs = self.dirty_rerun(host, model, prop, op, [out_env_rel] + ([out_file_rel] if out_file_rel else []), run,
+                                  "extracted-bytes-identical")
         return vs
